@@ -29,7 +29,7 @@ def enc_items(items):
 def spec_items(text):
     """The property's sentences, written independently of parse_data: split at commas outside quotes; an item that is
     (blanks) "quoted" (blanks) is kept verbatim; other items are trimmed; blank items are Empty.  Returns None where the
-    property does not say (a quote inside an unquoted item, text after a closing quote).  A last item whose quote is never
+    property does not say (a comma between quotes inside an unquoted item, text after a closing quote).  A last item whose quote is never
     closed is a quoted item that runs to the end of the statement: kept verbatim."""
     fields, cur, inq = [], '', False
     for ch in text:
@@ -58,9 +58,9 @@ def spec_items(text):
                 return None
             items.append(t[1:-1])
         else:
-            if '"' in t:
-                return None
-            items.append(t)
+            if '"' in t and ',' in t:
+                return None                  # a comma between quotes inside an unquoted item: the property does not say
+            items.append(t)                  # an unquoted item is trimmed and otherwise kept as written (quotes included)
     if unclosed is not None:
         items.append(unclosed)
     return items
@@ -316,9 +316,36 @@ def run(chk):
     deviations = []
     nontrivial = set()
     hits = {}
+    # fixed layouts the random generator reaches rarely: a RESTORE target with no DATA at or after it (nothing is left to
+    # read), several labels in front of one DATA statement, a label between two DATA statements
+    fixed = []
+    for evs, opsf in [
+        ([('L', 'first'), ('D', ['10', '20']), ('L', 'second'), ('D', ['30']), ('L', 'last')],
+         [('R', 'INTEGER'), ('R', 'INTEGER'), ('R', 'INTEGER'), ('T', 'last'), ('R', 'STRING')]),
+        ([('D', ['1']), ('L', 'tail')], [('T', 'tail'), ('R', 'INTEGER')]),
+        ([('L', 'a'), ('L', 'b'), ('L', 'c'), ('D', ['7', '8']), ('L', 'd')],
+         [('T', 'b'), ('R', 'INTEGER'), ('T', 'a'), ('R', 'INTEGER'), ('R', 'INTEGER'), ('T', 'd'), ('R', 'INTEGER')]),
+        ([('D', ['1', '2']), ('L', 'mid'), ('D', ['3'])], [('R', 'INTEGER'), ('T', 'mid'), ('R', 'INTEGER'), ('R', 'INTEGER')]),
+    ]:
+        flines = [('label', e[1]) if e[0] == 'L' else ('data', 'DATA ' + ','.join(e[1])) for e in evs]
+        decl = [(t + ':') if k == 'label' else t for k, t in flines]
+        body, fops, kk = [], [], 0
+        for op in opsf:
+            if op[0] == 'T':
+                body.append(f'RESTORE {op[1]}')
+                fops.append(op)
+            else:
+                kk += 1
+                var = f'r{kk}{values.TYPE_CHAR[op[1]]}'
+                body += [f'READ {var}', (f'PRINT "[" + {var} + "]"' if op[1] == 'STRING' else f'PRINT {var}')]
+                fops.append(('R', op[1], var))
+        fixed.append(('\n'.join(decl[:1] + body[:0] + decl[1:] + body) + '\n' if False else '\n'.join(body + ['END'] + decl) + '\n', evs, fops))
     for pi in range(nprog):
-        lines, events = gen_program(rng)
-        src, ops = build_source(rng, lines, events, rng.randint(1, 10))
+        if pi < len(fixed):
+            src, events, ops = fixed[pi]
+        else:
+            lines, events = gen_program(rng)
+            src, ops = build_source(rng, lines, events, rng.randint(1, 10))
         o, g = cfgs_all[pi % 6] if not chk.thorough() else rng.choice(cfgs_all)
         st = real.try_compile(src, o, g)
         evtoks = []
@@ -392,7 +419,7 @@ def run(chk):
             nontrivial.add(src)
         # cursor correspondence on the module's real data section, through the real device
         mod = real.QModule.parse(st[2])
-        dops, dexp = device_ops(mod, ops, groups)
+        dops, dexp = device_ops(mod, ops, groups, code.get_data_label_index)
         reqs_r.append('reads ' + str(len(mod.data)) + ' ' + ' '.join(enc_items(p) for p in mod.data) + ' ' + ' '.join(dops))
         exp_r.append(dexp)
         if pi < 3:
@@ -464,7 +491,7 @@ def _label_has_own_data(events, label):
     return False
 
 
-def device_ops(mod, ops, groups):
+def device_ops(mod, ops, groups, label_index=None):
     """drive the real DataDevice with the op sequence; RESTORE uses the index the compiler computed"""
     impl = real.RecImpl()
     m = real.QvmMachine(mod, impl=impl)
@@ -481,8 +508,16 @@ def device_ops(mod, ops, groups):
                 name = op[1].lower() if not op[1].isdigit() else '_lineno_' + op[1]
                 cands = [i for i, k in enumerate(keys) if k == name or k == op[1]]
                 if not cands:
-                    continue
-                idx = cands[0]
+                    # a label without a group of its own: the index the compiler pushes (the group of the first later label
+                    # that has one, or one past the last group)
+                    if label_index is None:
+                        continue
+                    try:
+                        idx = label_index(name)
+                    except Exception:  # noqa: BLE001
+                        continue
+                else:
+                    idx = cands[0]
             cpu.push(real.CellType.INTEGER, idx)
             dev._exec_restore()
             dops += ['T', str(idx)]
